@@ -25,6 +25,7 @@ type Config struct {
 	TimeoutMs      int
 	Workers        int
 	MaxPaths       int
+	MaxWallS       int
 	MaxViol        int
 	ResetEvery     int
 	Params         map[string]int64
@@ -956,6 +957,14 @@ func (x *Explorer) record(e *Engine, end pathEnd) {
 	if x.cfg.MaxPaths > 0 && x.stats.Paths >= x.cfg.MaxPaths && !x.done {
 		x.done = true
 		msg := fmt.Sprintf("budget: path limit %d reached", x.cfg.MaxPaths)
+		if !x.inconSeen[msg] {
+			x.inconSeen[msg] = true
+			x.incon = append(x.incon, msg)
+		}
+	}
+	if x.cfg.MaxWallS > 0 && !x.done && time.Since(x.startTime) > time.Duration(x.cfg.MaxWallS)*time.Second {
+		x.done = true
+		msg := fmt.Sprintf("budget: wall-clock limit of %d s reached before the exploration was complete", x.cfg.MaxWallS)
 		if !x.inconSeen[msg] {
 			x.inconSeen[msg] = true
 			x.incon = append(x.incon, msg)
